@@ -7,7 +7,7 @@
    TaskRunner as pseudo-threads).  "In ...exec n scripts sched" = at every step of every
    interleaving.  n = 0 is allowed (nothing is ever let in), so n >= 1 is not needed. *)
 From Coq Require Import List ZArith Bool Arith.
-From GZ Require Import Lib.Sched C05.Model C05.Proofs C05.Proofs2.
+From GZ Require Import Lib.Sched C05.Model C05.Proofs C05.Proofs2 C05.Engine.
 From GZ Require C05.Check C05.ProofsCheck.
 Import ListNotations.
 
@@ -69,6 +69,44 @@ Theorem maxconns_idle_means_zero : forall n scripts sched,
   ((forall th, In th (lthreads s) -> lpcof th <> LInBody) -> lc s = 0).
 Proof. exact maxconns_idle_means_zero_l. Qed.
 Print Assumptions maxconns_idle_means_zero.
+
+(* ---- MaxConns as configured in a rest.Server (Engine.v): one latch of capacity n per route, built
+   when the routes are bound; actors are (route, client) pairs; any interleaving of all of them ---- *)
+
+(* per route: permits out = requests inside that route's handler <= n, never a rogue Return, and the
+   full capacity of the route is back when none of its requests is inside (handlers that returned or
+   panicked; contexts cancelled, hijacked connections closed meanwhile) - whatever the clients of the
+   other routes do *)
+Theorem engine_cap_per_route : forall n routes sched r scripts s,
+  Forall (Forall is_req) scripts ->
+  nth_error routes r = Some scripts ->
+  nth_error (eexec n routes sched) r = Some s ->
+  lrogue s = false /\ lc s = linbody s /\ linbody s <= n /\
+  ((forall th, In th (lthreads s) -> lpcof th <> LInBody) -> lc s = 0).
+Proof. exact engine_cap_per_route_l. Qed.
+Print Assumptions engine_cap_per_route.
+
+(* a route's latch after any interleaving = its own LTS after its own part of the schedule *)
+Theorem engine_route_is_its_own_latch : forall n routes sched r scripts,
+  nth_error routes r = Some scripts ->
+  nth_error (eexec n routes sched) r = Some (lexec n scripts (eproj r sched)).
+Proof. exact eexec_route. Qed.
+Print Assumptions engine_route_is_its_own_latch.
+
+Theorem engine_routes_independent : forall es a es' r,
+  estep es a = Some es' -> r <> fst a -> nth_error es' r = nth_error es r.
+Proof. exact engine_routes_independent_l. Qed.
+Print Assumptions engine_routes_independent.
+
+(* MaxConns = 1, two routes: the three first requests of route 0 arrive together - one inside, two
+   refused -, route 1 lets its own first request in meanwhile; after the holder of route 0 has
+   returned the next request of route 0 is let in *)
+Example ex_engine :
+  let es := eexec 1 [[[LReq false]; [LReq false]; [LReq false; LReq true]]; [[LReq false]]]
+                  [(0, 0); (0, 1); (1, 0); (0, 2); (0, 0); (0, 2)] in
+  map (fun s => (linbody s, lc s, map lres (lthreads s))) es =
+  [(1, 1, [[1]; [0]; [0]]%Z); (1, 1, [[]])].
+Proof. vm_compute. reflexivity. Qed.
 
 (* ---- TaskRunner ---- *)
 
